@@ -311,6 +311,335 @@ Section ReplaceP.
     unfold Replace.subst_word. destruct (str_eqb w term) eqn:E; [|reflexivity]. apply str_eqb_eq in E. exfalso. apply H. now left.
   Qed.
 
+
+  (* ================= one-sided flags (as repaired by D52): general theorem ================= *)
+  Hypothesis eq_delim : isd "="%char = true.
+  Notation loopA := (Replace.loopA isd term rep).
+
+  (* the part of a string before its first '=' and the rest (empty, or starting with that '=') *)
+  Fixpoint before_eq (s : str) : str :=
+    match s with [] => [] | c :: s' => if Ascii.eqb "="%char c then [] else c :: before_eq s' end.
+  Fixpoint from_eq (s : str) : str :=
+    match s with [] => [] | c :: s' => if Ascii.eqb "="%char c then s else from_eq s' end.
+
+  Lemma has_eq_cons c s : has_eq (c :: s) = Ascii.eqb "="%char c || has_eq s.
+  Proof. reflexivity. Qed.
+  Lemma has_eq_app a b : has_eq (a ++ b) = has_eq a || has_eq b.
+  Proof. unfold has_eq, memc. apply existsb_app. Qed.
+  Lemma split_eq s : before_eq s ++ from_eq s = s.
+  Proof. induction s as [|c s IH]; [reflexivity|]. cbn [before_eq from_eq]. destruct (Ascii.eqb "=" c); [reflexivity|]. cbn [app]. now rewrite IH. Qed.
+  Lemma before_noeq s : has_eq (before_eq s) = false.
+  Proof.
+    induction s as [|c s IH]; [reflexivity|]. cbn [before_eq]. destruct (Ascii.eqb "=" c) eqn:E; [reflexivity|].
+    rewrite has_eq_cons, E, IH. reflexivity.
+  Qed.
+  Lemma app_noeq p r : has_eq p = false -> before_eq (p ++ r) = p ++ before_eq r /\ from_eq (p ++ r) = from_eq r.
+  Proof.
+    induction p as [|c p IH]; intro H; [split; reflexivity|]. rewrite has_eq_cons in H. apply orb_false_elim in H as [Hc Hp].
+    cbn [app before_eq from_eq]. rewrite Hc. destruct (IH Hp) as [H1 H2]. now rewrite H1, H2.
+  Qed.
+  Lemma from_shape s : from_eq s = [] \/ exists b, from_eq s = "="%char :: b.
+  Proof.
+    induction s as [|c s IH]; [now left|]. cbn [from_eq]. destruct (Ascii.eqb "=" c) eqn:E; [|exact IH].
+    apply Ascii.eqb_eq in E. subst c. right. eauto.
+  Qed.
+  Lemma nodelim_noeq w : forallb (fun c => negb (isd c)) w = true -> has_eq w = false.
+  Proof.
+    induction w as [|c w IH]; intro H; [reflexivity|]. cbn [forallb] in H. apply andb_prop in H as [Hc Hw].
+    rewrite has_eq_cons, (IH Hw), orb_false_r. destruct (Ascii.eqb "=" c) eqn:E; [|reflexivity].
+    apply Ascii.eqb_eq in E. subst c. rewrite eq_delim in Hc. discriminate.
+  Qed.
+  Lemma follow_before s : follow_ok (before_eq s) = follow_ok s.
+  Proof.
+    destruct s as [|c s]; [reflexivity|]. cbn [before_eq]. destruct (Ascii.eqb "=" c) eqn:E; [|reflexivity].
+    apply Ascii.eqb_eq in E. subst c. cbn [Replace.follow_ok]. now rewrite eq_delim.
+  Qed.
+
+  (* ---- find on a prefix / suffix ---- *)
+  Lemma prefixb_app_r : forall t p q, prefixb t p = true -> prefixb t (p ++ q) = true.
+  Proof.
+    induction t as [|a t IH]; intros p q H; [reflexivity|]. destruct p as [|b p]; [discriminate|].
+    cbn in *. apply andb_prop in H as [H1 H2]. rewrite H1. cbn. now apply IH.
+  Qed.
+  Lemma prefixb_app_inv : forall t p q, prefixb t (p ++ q) = true -> length t <= length p -> prefixb t p = true.
+  Proof.
+    induction t as [|a t IH]; intros p q H Hl; [reflexivity|]. destruct p as [|b p]; [cbn in Hl; lia|].
+    cbn in *. apply andb_prop in H as [H1 H2]. rewrite H1. cbn. apply (IH p q); [exact H2|lia].
+  Qed.
+  Lemma find_nil : find [] = None.
+  Proof. destruct term_split as (c & tw & Et). cbn. rewrite Et. reflexivity. Qed.
+  Lemma find_none_prefix : forall p q, find (p ++ q) = None -> find p = None.
+  Proof.
+    induction p as [|c p IH]; intros q H; [apply find_nil|]. cbn [app Replace.find] in *.
+    destruct (prefixb term (c :: p ++ q)) eqn:E; [discriminate|].
+    destruct (prefixb term (c :: p)) eqn:E2; [apply (prefixb_app_r _ _ q) in E2; cbn [app] in E2; congruence|].
+    destruct (find (p ++ q)) eqn:Ef; [discriminate|]. now rewrite (IH q Ef).
+  Qed.
+  Lemma find_none_suffix : forall p q, find (p ++ q) = None -> find q = None.
+  Proof.
+    induction p as [|c p IH]; intros q H; [exact H|]. cbn [app Replace.find] in H.
+    destruct (prefixb term (c :: p ++ q)); [discriminate|]. destruct (find (p ++ q)) eqn:Ef; [discriminate|]. now apply IH.
+  Qed.
+  Lemma find_prefix_some : forall p q idx, find (p ++ q) = Some idx -> idx + n <= length p -> find p = Some idx.
+  Proof.
+    destruct term_split as (c0 & tw & Et). assert (Hn : n = S (length tw)) by (unfold n; rewrite Et; reflexivity).
+    induction p as [|c p IH]; intros q idx H Hl; [cbn in Hl; lia|]. cbn [app Replace.find] in *.
+    destruct (prefixb term (c :: p ++ q)) eqn:E.
+    - injection H as <-. rewrite (prefixb_app_inv term (c :: p) q E) by (fold n; cbn [length] in *; lia). reflexivity.
+    - destruct (prefixb term (c :: p)) eqn:E2; [apply (prefixb_app_r _ _ q) in E2; cbn [app] in E2; congruence|].
+      destruct (find (p ++ q)) as [i|] eqn:Ef; [|discriminate]. injection H as <-. cbn [length] in Hl.
+      rewrite (IH q i Ef) by lia. reflexivity.
+  Qed.
+  Lemma find_none_of : forall p, (forall j, j <= length p -> prefixb term (skipn j p) = false) -> find p = None.
+  Proof.
+    induction p as [|c p IH]; intro H; [apply find_nil|]. cbn [Replace.find].
+    pose proof (H 0 ltac:(lia)) as H0. cbn [skipn] in H0. rewrite H0. rewrite IH; [reflexivity|]. intros j Hj. apply (H (S j)). cbn [length]. lia.
+  Qed.
+  Lemma find_decomp s idx : find s = Some idx ->
+    idx + n <= length s /\ firstn (idx + n) s = firstn idx s ++ term /\ (forall j, j < idx -> prefixb term (skipn j s) = false).
+  Proof.
+    intro Ef. destruct (find_spec s idx Ef) as [Hocc Hnone].
+    destruct term_split as (c0 & tw & Et). assert (Hn : n = S (length tw)) by (unfold n; rewrite Et; reflexivity).
+    pose proof (prefixb_split _ _ Hocc) as Hsplit. fold n in Hsplit.
+    pose proof (prefixb_length _ _ Hocc) as Hl. fold n in Hl. rewrite skipn_length in Hl.
+    assert (Hidx : idx + n <= length s) by lia. split; [exact Hidx|]. split; [|exact Hnone].
+    rewrite <- (firstn_skipn idx s) at 1. rewrite Hsplit.
+    assert (Hlen : length (firstn idx s) = idx) by (rewrite firstn_length; lia).
+    rewrite <- Hlen at 1. rewrite firstn_app_2. f_equal. rewrite firstn_app. unfold n. rewrite firstn_all, Nat.sub_diag. cbn [firstn].
+    now rewrite app_nil_r.
+  Qed.
+
+  (* ---- the phase after seen_eq is set ---- *)
+  Lemma rhs_seen : forall fuel acc prev s, loopA true false fuel acc prev true s = loopA false false fuel acc prev true s.
+  Proof. induction fuel as [|f IH]; intros acc prev s; cbn [Replace.loopA]; destruct (find s); try reflexivity. cbn [orb andb negb]. apply IH. Qed.
+  Lemma lhs_seen : forall fuel acc prev s, length s < fuel -> loopA false true fuel acc prev true s = Some (acc ++ s).
+  Proof.
+    induction fuel as [|f IH]; intros acc prev s Hl; [lia|]. cbn [Replace.loopA]. fold n. destruct (find s) as [idx|] eqn:Ef; [|reflexivity].
+    destruct (find_decomp s idx Ef) as (Hidx & _ & _). destruct term_split as (c0 & tw & Et).
+    assert (Hn : n = S (length tw)) by (unfold n; rewrite Et; reflexivity).
+    cbn [orb andb negb]. rewrite andb_false_r. rewrite IH by (rewrite skipn_length; lia).
+    now rewrite <- app_assoc, firstn_skipn.
+  Qed.
+
+  (* ---- rhs_only ---- *)
+  Definition after_r (r : str) : str := match r with [] => [] | e :: b => e :: scan true 0 b end.
+  Definition rhs_t (s : str) : str := before_eq s ++ after_r (from_eq s).
+
+  Lemma rhs_t_app p r : has_eq p = false -> rhs_t (p ++ r) = p ++ rhs_t r.
+  Proof. intro H. unfold rhs_t. destruct (app_noeq p r H) as [H1 H2]. now rewrite H1, H2, app_assoc. Qed.
+
+  Lemma rhs_t_nofind s : find s = None -> rhs_t s = s.
+  Proof.
+    intro H. unfold rhs_t. pose proof (split_eq s) as Hs. rewrite <- Hs in H. apply find_none_suffix in H.
+    destruct (from_eq s) as [|e b] eqn:Ef; cbn [after_r]; [exact Hs|].
+    rewrite find_none_scan; [exact Hs|]. exact (find_none_suffix [e] b H).
+  Qed.
+
+  Lemma before_lt : forall s idx, has_eq (firstn idx s) = true -> length (before_eq s) < idx /\ exists b, from_eq s = "="%char :: b.
+  Proof.
+    induction s as [|c s IH]; intros idx H; [rewrite firstn_nil in H; discriminate|].
+    destruct idx as [|i]; [discriminate|]. cbn [firstn] in H. rewrite has_eq_cons in H. cbn [before_eq from_eq].
+    destruct (Ascii.eqb "=" c) eqn:E.
+    - apply Ascii.eqb_eq in E. subst c. split; [cbn; lia|eauto].
+    - cbn [orb] in H. destruct (IH i H) as [H1 H2]. split; [cbn [length]; lia|exact H2].
+  Qed.
+
+  Lemma scan_rhs s idx pd : (forall j, j < idx -> prefixb term (skipn j s) = false) -> has_eq (firstn idx s) = true ->
+    scan pd 0 s = rhs_t s.
+  Proof.
+    intros Hn He. destruct (before_lt s idx He) as [Hlt [b Hb]]. unfold rhs_t. rewrite Hb. cbn [after_r].
+    pose proof (split_eq s) as Hs. rewrite Hb in Hs. set (B := before_eq s) in *.
+    assert (H : s = (B ++ ["="%char]) ++ b) by (rewrite <- app_assoc; symmetry; exact Hs).
+    rewrite H at 1. rewrite copy_prefix.
+    - assert (Hp : pd_after pd (B ++ ["="%char]) = true).
+      { unfold pd_after. destruct (B ++ ["="%char]) as [|x l] eqn:E; [destruct B; discriminate|]. now rewrite <- E, last_last. }
+      rewrite Hp. now rewrite <- app_assoc.
+    - intros j Hj. rewrite <- H. apply Hn. rewrite app_length in Hj. cbn [length] in Hj. lia.
+  Qed.
+
+  Lemma rhs_loop : forall fuel acc prev s, length s < fuel -> loopA true false fuel acc prev false s = Some (acc ++ rhs_t s).
+  Proof.
+    induction fuel as [|f IH]; intros acc prev s Hl; [lia|].
+    destruct (find s) as [idx|] eqn:Ef.
+    2:{ cbn [Replace.loopA]. rewrite Ef. now rewrite rhs_t_nofind. }
+    destruct (find_decomp s idx Ef) as (Hidx & Hfn & Hnone).
+    destruct term_split as (c0 & tw & Et). assert (Hn : n = S (length tw)) by (unfold n; rewrite Et; reflexivity).
+    destruct (has_eq (firstn idx s)) eqn:He.
+    - (* the occurrence lies right of the first '=': from here on the loop is the flagless loop *)
+      assert (Hf : has_eq (firstn (idx + n) s) = true) by (rewrite Hfn, has_eq_app, He; reflexivity).
+      assert (Hstep : loopA true false (S f) acc prev false s = loopA false false (S f) acc prev false s).
+      { cbn [Replace.loopA]. fold n. rewrite Ef, He, Hf. cbn [orb andb negb]. apply rhs_seen. }
+      rewrite Hstep, loopA_loop, loop_is_scan by lia. cbn [option_map]. f_equal. f_equal. now apply (scan_rhs s idx).
+    - (* left of the first '=': copied *)
+      assert (Hf : has_eq (firstn (idx + n) s) = false) by (rewrite Hfn, has_eq_app, He, (nodelim_noeq term term_nodelim); reflexivity).
+      cbn [Replace.loopA]. fold n. rewrite Ef, He, Hf. cbn [orb andb negb]. rewrite andb_false_r.
+      rewrite IH by (rewrite skipn_length; lia). f_equal. rewrite <- app_assoc. f_equal.
+      rewrite <- (rhs_t_app _ _ Hf). now rewrite firstn_skipn.
+  Qed.
+
+  (* ---- lhs_only: up to the first '=' the loop runs like the flagless loop on the part before it ---- *)
+  Lemma nth_error_firstn' {A} : forall (l : list A) k i, i < k -> nth_error (firstn k l) i = nth_error l i.
+  Proof.
+    induction l as [|x l IH]; intros k i H; [now rewrite firstn_nil|]. destruct k as [|k]; [lia|]. destruct i as [|i]; [reflexivity|].
+    cbn [firstn nth_error]. apply IH. lia.
+  Qed.
+
+  Lemma lhs_sim : forall fuel acc prev s, length s < fuel ->
+    loopA false true fuel acc prev false s =
+    option_map (fun x => x ++ from_eq s) (loopA false false fuel acc prev false (before_eq s)).
+  Proof.
+    induction fuel as [|f IH]; intros acc prev s Hl; [lia|].
+    destruct (find s) as [idx|] eqn:Ef.
+    2:{ cbn [Replace.loopA]. rewrite Ef. pose proof Ef as Ef'. rewrite <- (split_eq s) in Ef'. apply find_none_prefix in Ef'.
+        rewrite Ef'. cbn [option_map]. now rewrite <- app_assoc, split_eq. }
+    destruct (find_decomp s idx Ef) as (Hidx & Hfn & Hnone).
+    destruct term_split as (c0 & tw & Et). assert (Hn : n = S (length tw)) by (unfold n; rewrite Et; reflexivity).
+    destruct (has_eq (firstn idx s)) eqn:He.
+    - (* the first occurrence lies right of the first '=': nothing is replaced at all *)
+      assert (Hf : has_eq (firstn (idx + n) s) = true) by (rewrite Hfn, has_eq_app, He; reflexivity).
+      destruct (before_lt s idx He) as [Hlt _].
+      assert (EfB : find (before_eq s) = None).
+      { apply find_none_of. intros j Hj. destruct (prefixb term (skipn j (before_eq s))) eqn:E; [|reflexivity].
+        apply (prefixb_app_r _ _ (from_eq s)) in E.
+        assert (Hsk : skipn j (before_eq s) ++ from_eq s = skipn j s).
+        { rewrite <- (split_eq s) at 3. rewrite skipn_app. replace (j - length (before_eq s)) with 0 by lia. reflexivity. }
+        rewrite Hsk in E. rewrite Hnone in E by lia. discriminate. }
+      cbn [Replace.loopA]. fold n. rewrite Ef, EfB, He, Hf. cbn [orb andb negb option_map]. rewrite andb_false_r.
+      rewrite lhs_seen by (rewrite skipn_length; lia). f_equal.
+      rewrite <- !app_assoc. f_equal. now rewrite firstn_skipn, split_eq.
+    - (* the occurrence lies left of the first '=': the same step as the flagless loop on before_eq s *)
+      assert (Hf : has_eq (firstn (idx + n) s) = false) by (rewrite Hfn, has_eq_app, He, (nodelim_noeq term term_nodelim); reflexivity).
+      destruct (app_noeq (firstn (idx + n) s) (skipn (idx + n) s) Hf) as [HB HF]. rewrite firstn_skipn in HB, HF.
+      assert (Hlp : length (firstn (idx + n) s) = idx + n) by (rewrite firstn_length; lia).
+      assert (EfB : find (before_eq s) = Some idx).
+      { apply (find_prefix_some _ (from_eq s)); [now rewrite split_eq|]. rewrite HB, app_length. lia. }
+      assert (E1 : firstn idx (before_eq s) = firstn idx s).
+      { rewrite HB, firstn_app. replace (idx - length (firstn (idx + n) s)) with 0 by lia. cbn [firstn]. rewrite app_nil_r.
+        rewrite firstn_firstn. now rewrite Nat.min_l by lia. }
+      assert (E2 : firstn (idx + n) (before_eq s) = firstn (idx + n) s).
+      { rewrite HB, firstn_app. replace (idx + n - length (firstn (idx + n) s)) with 0 by lia. cbn [firstn]. rewrite app_nil_r.
+        apply firstn_all2. lia. }
+      assert (E3 : skipn (idx + n) (before_eq s) = before_eq (skipn (idx + n) s)).
+      { rewrite HB at 1. rewrite skipn_app. replace (idx + n - length (firstn (idx + n) s)) with 0 by lia.
+        rewrite skipn_all2 by lia. reflexivity. }
+      assert (E4 : forall i, i < idx + n -> nth_error (before_eq s) i = nth_error s i).
+      { intros i Hi. rewrite HB, nth_error_app1 by lia. now apply nth_error_firstn'. }
+      assert (E5 : match idx with 0 => prev | S i => nth_error (before_eq s) i end = match idx with 0 => prev | S i => nth_error s i end).
+      { destruct idx as [|i]; [reflexivity|]. apply E4. lia. }
+      assert (E6 : match idx + n with 0 => None | S k => nth_error (before_eq s) k end = match idx + n with 0 => None | S k => nth_error s k end).
+      { destruct (idx + n) as [|k] eqn:Ek; [reflexivity|]. apply E4. lia. }
+      cbn [Replace.loopA]. fold n. rewrite Ef, EfB, E1, E2, E3, E5, E6, He, Hf, follow_before. cbn [orb andb negb].
+      rewrite IH by (rewrite skipn_length; lia). now rewrite HF.
+  Qed.
+
+  Definition lhs_t (pd : bool) (s : str) : str := scan pd 0 (before_eq s) ++ from_eq s.
+
+  Lemma lhs_loop : forall fuel acc prev s, length s < fuel ->
+    loopA false true fuel acc prev false s = Some (acc ++ lhs_t (pd_of prev) s).
+  Proof.
+    intros fuel acc prev s Hl. rewrite lhs_sim by exact Hl. rewrite loopA_loop, loop_is_scan.
+    - cbn [option_map]. unfold lhs_t. now rewrite <- app_assoc.
+    - pose proof (f_equal (@length ascii) (split_eq s)) as H. rewrite app_length in H. lia.
+  Qed.
+
+  (* ---- the sided word-wise specification, split at the first '=' ---- *)
+  Notation sided := (Replace.sided term rep).
+
+  Lemma wordsA_delim : forall a cur d b, isd d = true -> wordsA cur (a ++ d :: b) = wordsA cur a ++ [d] :: wordsA [] b.
+  Proof.
+    induction a as [|c a IH]; intros cur d b Hd; cbn [app Replace.wordsA].
+    - now rewrite Hd.
+    - destruct (isd c); [|now apply IH]. rewrite (IH [] d b Hd). now rewrite <- app_assoc.
+  Qed.
+
+  Lemma wordsA_concat0 : forall s cur, List.concat (wordsA cur s) = cur ++ s.
+  Proof.
+    induction s as [|c s IH]; intro cur; cbn [Replace.wordsA].
+    - destruct cur; cbn; now rewrite ?app_nil_r.
+    - destruct (isd c).
+      + rewrite concat_app. cbn [List.concat]. rewrite IH. destruct cur; cbn; now rewrite ?app_nil_r.
+      + rewrite IH. now rewrite <- app_assoc.
+  Qed.
+
+  Lemma flush_noeq cur w : has_eq cur = false -> In w (Replace.flush cur) -> has_eq w = false.
+  Proof. intros Hc Hin. destruct cur; cbn in Hin; [contradiction|]. destruct Hin as [<-|[]]. exact Hc. Qed.
+
+  Lemma words_noeq : forall a cur, has_eq a = false -> has_eq cur = false -> forall w, In w (wordsA cur a) -> has_eq w = false.
+  Proof.
+    induction a as [|c a IH]; intros cur Ha Hc w Hin; cbn [Replace.wordsA] in Hin; [now apply (flush_noeq cur)|].
+    rewrite has_eq_cons in Ha. apply orb_false_elim in Ha as [Hc0 Ha].
+    destruct (isd c).
+    - apply in_app_or in Hin as [Hin|[<-|Hin]]; [now apply (flush_noeq cur)| |now apply (IH [])].
+      now rewrite has_eq_cons, Hc0.
+    - apply (IH (cur ++ [c])); auto. now rewrite has_eq_app, Hc, has_eq_cons, Hc0.
+  Qed.
+
+  Lemma noeq_word w : has_eq w = false -> str_eqb w ["="%char] = false.
+  Proof. intro H. apply str_eqb_neq. intro E. subst w. discriminate. Qed.
+
+  Lemma sided_seen_rhs : forall ws, sided true false true ws = List.concat (map subst_word ws).
+  Proof. induction ws as [|w ws IH]; [reflexivity|]. cbn [Replace.sided map List.concat orb andb negb]. now rewrite IH. Qed.
+  Lemma sided_seen_lhs : forall ws, sided false true true ws = List.concat ws.
+  Proof. induction ws as [|w ws IH]; [reflexivity|]. cbn [Replace.sided List.concat orb andb negb]. now rewrite IH. Qed.
+  Lemma sided_ff : forall ws seen, sided false false seen ws = List.concat (map subst_word ws).
+  Proof. induction ws as [|w ws IH]; intro seen; [reflexivity|]. cbn [Replace.sided map List.concat orb andb negb]. now rewrite IH. Qed.
+  Lemma sided_tt : forall ws seen, sided true true seen ws = List.concat (map subst_word ws).
+  Proof. induction ws as [|w ws IH]; intro seen; [reflexivity|]. cbn [Replace.sided map List.concat]. rewrite IH. now destruct seen. Qed.
+
+  Lemma sided_noeq_rhs : forall ws rest, (forall w, In w ws -> has_eq w = false) ->
+    sided true false false (ws ++ rest) = List.concat ws ++ sided true false false rest.
+  Proof.
+    induction ws as [|w ws IH]; intros rest H; [reflexivity|]. cbn [app Replace.sided List.concat].
+    rewrite (noeq_word w) by (apply H; now left). cbn [orb andb negb]. rewrite IH by (intros x Hx; apply H; now right).
+    now rewrite app_assoc.
+  Qed.
+  Lemma sided_noeq_lhs : forall ws rest, (forall w, In w ws -> has_eq w = false) ->
+    sided false true false (ws ++ rest) = List.concat (map subst_word ws) ++ sided false true false rest.
+  Proof.
+    induction ws as [|w ws IH]; intros rest H; [reflexivity|]. cbn [app Replace.sided map List.concat].
+    rewrite (noeq_word w) by (apply H; now left). cbn [orb andb negb]. rewrite IH by (intros x Hx; apply H; now right).
+    now rewrite app_assoc.
+  Qed.
+
+  Lemma before_words_noeq s : forall w, In w (wordsA [] (before_eq s)) -> has_eq w = false.
+  Proof. apply words_noeq; [apply before_noeq|reflexivity]. Qed.
+
+  Lemma sided_rhs_spec s : Replace.replace_words_sided isd term rep true false s = rhs_t s.
+  Proof.
+    unfold Replace.replace_words_sided, Replace.words, rhs_t.
+    replace (wordsA [] s) with (wordsA [] (before_eq s ++ from_eq s)) by (now rewrite split_eq).
+    destruct (from_shape s) as [E|[b E]]; rewrite E; cbn [after_r].
+    - rewrite app_nil_r. rewrite <- (app_nil_r (wordsA [] (before_eq s))). rewrite sided_noeq_rhs by apply before_words_noeq.
+      cbn [Replace.sided]. now rewrite wordsA_concat0, app_nil_r.
+    - rewrite wordsA_delim by exact eq_delim. rewrite sided_noeq_rhs by apply before_words_noeq.
+      rewrite wordsA_concat0. cbn [app]. f_equal. cbn [Replace.sided]. rewrite str_eqb_refl. cbn [orb andb negb app].
+      f_equal. rewrite sided_seen_rhs. symmetry. apply scan_words.
+  Qed.
+
+  Lemma sided_lhs_spec s : Replace.replace_words_sided isd term rep false true s = lhs_t true s.
+  Proof.
+    unfold Replace.replace_words_sided, Replace.words, lhs_t. rewrite scan_words. unfold Replace.replace_words, Replace.words.
+    replace (wordsA [] s) with (wordsA [] (before_eq s ++ from_eq s)) by (now rewrite split_eq).
+    destruct (from_shape s) as [E|[b E]]; rewrite E.
+    - rewrite app_nil_r. rewrite <- (app_nil_r (wordsA [] (before_eq s))) at 1. rewrite sided_noeq_lhs by apply before_words_noeq.
+      reflexivity.
+    - rewrite wordsA_delim by exact eq_delim. rewrite sided_noeq_lhs by apply before_words_noeq. f_equal.
+      cbn [Replace.sided]. rewrite str_eqb_refl. cbn [orb andb negb]. rewrite (subst_delim _ eq_delim). cbn [app]. f_equal.
+      rewrite sided_seen_lhs. apply (wordsA_concat0 b []).
+  Qed.
+
+  Theorem flags_rhs eq : Replace.replace_flags isd term rep true false eq = Some (Replace.replace_words_sided isd term rep true false eq).
+  Proof. unfold Replace.replace_flags. rewrite rhs_loop by lia. cbn [app]. f_equal. symmetry. apply sided_rhs_spec. Qed.
+  Theorem flags_lhs eq : Replace.replace_flags isd term rep false true eq = Some (Replace.replace_words_sided isd term rep false true eq).
+  Proof. unfold Replace.replace_flags. rewrite lhs_loop by lia. cbn [app Replace.pd_of]. f_equal. symmetry. apply sided_lhs_spec. Qed.
+  Theorem flags_none eq : Replace.replace_flags isd term rep false false eq = Some (Replace.replace_words_sided isd term rep false false eq).
+  Proof.
+    change (Replace.replace_flags isd term rep false false eq) with (Replace.replace isd term rep eq). rewrite replace_full.
+    unfold Replace.replace_words_sided, Replace.replace_words. now rewrite sided_ff.
+  Qed.
+  Lemma sided_both eq : Replace.replace_words_sided isd term rep true true eq = Replace.replace_words isd term rep eq.
+  Proof. unfold Replace.replace_words_sided, Replace.replace_words. now rewrite sided_tt. Qed.
+
 End ReplaceP.
 
 (* ---------- what `words` is: a partition of the string into delimiter characters and delimiter-free runs ---------- *)
@@ -361,6 +690,20 @@ Proof.
 Qed.
 Theorem replace_both_flags isd term rep eq : replace_flags isd term rep true true eq = replace isd term rep eq.
 Proof. apply loopA_both_flags. Qed.
+
+(* every flag setting: the loop (with seen_eq carried across the cuts, fix D52) returns the SIDED word-wise substitution —
+   rhs_only: exactly the words that are the term and lie right of the first "=" of the original string, lhs_only: those
+   left of it, both or none: all of them.  "=" must be a delimiter (it is one of allowed_follow_ops). *)
+Theorem replace_flags_full isd term rep : term <> [] -> nodelim isd term = true -> isd "="%char = true ->
+  forall rhs lhs eq, replace_flags isd term rep rhs lhs eq = Some (replace_words_sided isd term rep rhs lhs eq).
+Proof.
+  intros Hne Hnd Heq rhs lhs eq. destruct rhs, lhs.
+  - rewrite replace_both_flags, (replace_full isd term rep Hne Hnd). f_equal. unfold replace_words_sided, replace_words.
+    symmetry. apply sided_tt.
+  - apply flags_rhs; assumption.
+  - apply flags_lhs; assumption.
+  - apply flags_none; assumption.
+Qed.
 
 Definition L := Coq.Strings.String.list_ascii_of_string.
 Import Coq.Strings.String.
@@ -463,5 +806,6 @@ Section Maps.
 End Maps.
 
 Print Assumptions replace_full.
+Print Assumptions replace_flags_full.
 Print Assumptions update_equation_full.
 Print Assumptions update_op_vars.
